@@ -994,6 +994,11 @@ impl<'a, K: Kmer + 'a, D: Debug + 'a> Iterator for NodeKmerIter<'a, K, D> {
                 self.next();
             }
         } else {
+            // skipping past the last kmer ends the iteration
+            if n >= self.num_kmers - self.kmer_id {
+                self.kmer_id = self.num_kmers;
+                return None;
+            }
             self.kmer_id += n;
             self.kmer = self.node_seq_slice.get_kmer::<K>(self.kmer_id);
         }
